@@ -45,8 +45,8 @@ for l in sys.stdin:
 cat $OUT/rev.log; grep -q FAIL $OUT/rev.log && fail=1
 echo "== 5. behaviour preserving changes (all properties must stay silent)"
 if ls benign/*.patch >/dev/null 2>&1; then
-  for p in benign/*.patch; do for i in $(seq -w 1 20); do echo "$(basename $p .patch)/C$i $p C$i 0"; done; done | xargs -P $J -L1 bash -c 'one "$0" "$1" "$2" "$3"' | sort > $OUT/benign.log
-  grep FAIL $OUT/benign.log; echo "  $(grep -c ' ok ' $OUT/benign.log) silent, $(grep -c FAIL $OUT/benign.log) alarms"; grep -q FAIL $OUT/benign.log && fail=1
+  for p in benign/*.patch; do b=$(basename $p .patch); for i in $(seq -w 1 20); do e=0; grep -q "^$b C$i " benign/EXPECTED_UNDECIDED 2>/dev/null && e=2; echo "$b/C$i $p C$i $e"; done; done | xargs -P $J -L1 bash -c 'one "$0" "$1" "$2" "$3"' | sort > $OUT/benign.log
+  grep FAIL $OUT/benign.log; echo "  $(grep -c ' ok .*exit 0' $OUT/benign.log) silent, $(grep -c ' ok .*exit 2' $OUT/benign.log) undecided as listed in benign/EXPECTED_UNDECIDED, $(grep -c FAIL $OUT/benign.log) alarms"; grep -q FAIL $OUT/benign.log && fail=1
 fi
 [ $fail = 0 ] && echo "SELFTEST OK" || echo "SELFTEST FAILED"
 exit $fail
